@@ -92,6 +92,10 @@ def _thr(c):
     col = np.array(c["col"], dtype=float)
     other = np.array([0.0, 1.0, 2.0, 3.0, 4.0])
     data = np.stack([col, other], axis=1)
+    # every second case hands the (integral) data over as an integer array
+    import zlib
+    if zlib.crc32(c["case"].encode()) % 2:
+        data = data.astype("int64" if zlib.crc32(c["case"].encode()) % 4 == 1 else "int32")
     val = c["qa"] / c["qb"]
     o = {"exc": "", "ev": []}
     try:
